@@ -359,6 +359,25 @@ class ResultCapture(logging.Handler):
                 pass
 
 
+def cache_entry_points() -> None:
+    """gallia rescans the installed distributions' metadata (importlib.metadata.entry_points) three
+    times per scanner run (~50 ms); the installed distributions do not change during a check, so the
+    harness process memoises that scan.  gallia's own plugin selection logic still runs every time."""
+    import functools
+
+    import gallia.plugins.plugin as plug
+
+    if not getattr(plug.entry_points, "_c10_cached", False):
+        orig = plug.entry_points
+
+        @functools.lru_cache(maxsize=None)
+        def cached(**kw: Any) -> Any:
+            return tuple(orig(**kw))
+
+        cached._c10_cached = True  # type: ignore[attr-defined]
+        plug.entry_points = cached  # type: ignore[assignment]
+
+
 _installed = False
 
 
@@ -369,6 +388,7 @@ def setup_logging_once() -> None:
     if _installed:
         return
     _installed = True
+    cache_entry_points()
     logging.getLogger().addHandler(logging.NullHandler())
     lg = logging.getLogger("gallia")
     lg.propagate = False
